@@ -31,6 +31,7 @@ func run(c *fw.Ctx) {
 	conditional(c)
 	bodyFaults(c)
 	tcpAborts(c)
+	fsx.Interference(c, mon)
 }
 
 // --- (b) conditional requests that must fail --------------------------------
